@@ -159,6 +159,8 @@ enum Op {
     TimeoutNow(u64, u64),
     /// the application finalizes what the node has committed, minus `back` entries
     Finalize(u64, u64),
+    /// the application asks to finalize `up` entries ABOVE the commit index (must be refused)
+    FinalizeUp(u64, u64),
     /// create_snapshot + truncate_log, as perform_compaction does
     Compact(u64),
 }
@@ -289,6 +291,12 @@ impl Run {
                 dist.hit("op.finalize");
                 (format!("GFinalize {i} {h}"), format!("finalize({i},{h})"), *i)
             }
+            Op::FinalizeUp(i, up) => {
+                let h = self.sim.nodes[*i as usize].commit_index() + *up;
+                let r = self.sim.nodes[*i as usize].finalize_to(h);
+                dist.hit(if r.is_ok() { "op.finalize_above_commit.accepted" } else { "op.finalize_above_commit.refused" });
+                (format!("GFinalize {i} {h}"), format!("finalize({i},{h} above commit)"), *i)
+            }
             Op::Compact(i) => {
                 let before = self.sim.nodes[*i as usize].verif_log_image().first().map(|e| e.0);
                 if let Ok((meta, _)) = self.sim.nodes[*i as usize].create_snapshot() {
@@ -401,7 +409,7 @@ fn run_case(r: &mut Rng, dir: PathBuf, dist: &mut Dist, steps: usize, n: u64) ->
                 Some(l) => {
                     let li = if r.chance(5, 6) { l } else { any };
                     if d < 34 { Op::Propose(li) } else if d < 68 { Op::Heartbeat(li) } else if d < 72 { Op::TimeoutNow(l, any) }
-                    else if d < 77 { Op::Finalize(if r.chance(4, 5) { l } else { any }, r.below(2)) } else if d < 82 { Op::Compact(if r.chance(4, 5) { l } else { any }) }
+                    else if d < 75 { Op::Finalize(if r.chance(4, 5) { l } else { any }, r.below(2)) } else if d < 77 { Op::FinalizeUp(if r.chance(1, 2) { l } else { any }, r.range(1, 3)) } else if d < 82 { Op::Compact(if r.chance(4, 5) { l } else { any }) }
                     else if d < 89 { elect(r) } else if d < 94 { Op::RequestVotes(any) } else { Op::Restart(any) }
                 }
                 None => if d < 70 { elect(r) } else if d < 78 { Op::RequestVotes(any) } else if d < 90 { Op::Heartbeat(any) } else { Op::Restart(any) },
@@ -779,6 +787,18 @@ fn main() {
         s10.extend(vec![Finalize(0, 0), Compact(0), Finalize(1, 1), Compact(1), Propose(0)]);
         s10.extend(rep(0, 1)); s10.extend(rep(0, 2)); s10.push(Restart(1)); s10.extend(rep(0, 1)); s10.extend(rep(0, 1));
         scripts.push(("corpus compaction-then-restart: ", s10));
+        // (11) the application asks to finalize above the commit index (a checkpoint on a cut-off leader): it must
+        //      be refused, so compaction cannot cut into the uncommitted tail that a new leader then overwrites
+        let mut s11 = elect(0, 1);
+        s11.extend(warm(0, 1));
+        s11.extend(vec![Propose(0), Propose(0), Propose(0)]); // uncommitted on node 0 alone
+        s11.extend(vec![FinalizeUp(0, 2), Compact(0)]);
+        s11.extend(elect(1, 2));
+        s11.extend(rep(1, 2));
+        s11.extend(vec![Propose(1), Propose(1)]);
+        s11.extend(rep(1, 2)); s11.extend(rep(1, 2));
+        s11.extend(rep(1, 0)); s11.extend(rep(1, 0)); s11.extend(rep(1, 0));
+        scripts.push(("corpus finalize-above-commit: ", s11));
         for (ci, (tag, script)) in scripts.iter().enumerate() {
             let k = Knobs { n: 3, pre_vote: false, fast_path: false, geometric: false, adaptive: false, trailing: 0 };
             let dir = args.out.join("wal").join(format!("corpus{ci}"));
